@@ -52,7 +52,7 @@ def run(index: RepoIndex, rep) -> None:
             if l.startswith(f'{me}.') and r == l.replace(f'{me}.', f'{other}.', 1):
                 fields.add(l[len(me) + 1:])
     f = index.func(REPR, 'default_grid_object_representation_convert')
-    cv, _ = channels(f)
+    cv, _ = channels(f, index)
     rep.check(fields == {'type_index()', 'state_index', 'color'}, 'C16.R1', GO,
               'GridObject.__eq__', eq.node.lineno, str(sorted(fields)),
               f'GridObject equality compares {sorted(fields)}, not (type, status, colour)',
@@ -144,7 +144,7 @@ def run(index: RepoIndex, rep) -> None:
     # ---- R5 no-overlap
     F = facts_tsc()
     f = index.func(REPR, 'no_overlap_grid_object_representation_convert')
-    cv, _ = channels(f)
+    cv, _ = channels(f, index)
     if len(cv) != 3:
         raise AnalysisError('no-overlap convert does not have three channels')
     own = ['t', 's', 'c']
